@@ -1,4 +1,5 @@
 import builtins
+import contextlib
 import copy
 import copyreg
 import functools
@@ -81,6 +82,27 @@ class _modules_copyable:
             if self.patched_table and self.refcount == 0:
                 del copyreg.dispatch_table[ModuleType]
                 self.patched_table = False
+
+
+@contextlib.contextmanager
+def thawed(obj: Any):
+    """
+    Temporarily allow mutation of `obj` even if it is an instance of a frozen
+    spec-class. This must only be used on freshly created copies that have not
+    yet been handed back to the user.
+    """
+    metadata = getattr(obj, "__spec_class__", None)
+    if (
+        not (metadata and metadata.frozen)
+        or "__spec_class_initializing__" in obj.__dict__
+    ):
+        yield obj
+        return
+    obj.__dict__["__spec_class_initializing__"] = True
+    try:
+        yield obj
+    finally:
+        obj.__dict__.pop("__spec_class_initializing__", None)
 
 
 def mutate_attr(
@@ -296,11 +318,12 @@ def mutate_value(
         if not mutate_safe:
             value = protect_via_deepcopy(value)
             mutate_safe = True
-        for attr, attr_value in attrs.items():
-            if attr in used_attrs:
-                continue
-            if attr_value is not MISSING:
-                setattr(value, attr, attr_value)
+        with thawed(value) if not inplace else contextlib.nullcontext():
+            for attr, attr_value in attrs.items():
+                if attr in used_attrs:
+                    continue
+                if attr_value is not MISSING:
+                    setattr(value, attr, attr_value)
     elif attrs:
         raise ValueError("Cannot use attrs on a missing value without a constructor.")
 
@@ -312,10 +335,11 @@ def mutate_value(
     if attr_transforms:
         if not mutate_safe:
             value = protect_via_deepcopy(value)
-        for attr, attr_transform in attr_transforms.items():
-            transformed_value = attr_transform(getattr(value, attr, MISSING))
-            if transformed_value is not MISSING:
-                setattr(value, attr, transformed_value)
+        with thawed(value) if not inplace else contextlib.nullcontext():
+            for attr, attr_transform in attr_transforms.items():
+                transformed_value = attr_transform(getattr(value, attr, MISSING))
+                if transformed_value is not MISSING:
+                    setattr(value, attr, transformed_value)
 
     return value
 
